@@ -34,8 +34,16 @@ RULE = (
     "class, an inherited copy, same name with other settings) + 7 ignored objects, x 6 attributes x 11 values (bool vs int, "
     "subclass instances, a class as value), then random lists of length 2-6. cmp: all 32 subsets of {eq,lt,le,gt,ge} with "
     "the standard functions x require_same_type x {same type, subclass payload, other type, foreign object} x 3-5 value "
-    "pairs, then random assignments of 9 relations (incl. constant and NotImplemented-returning functions) to the supplied "
-    "slots (thorough: every single-slot deviation); distinct = distinct JSON case."
+    "pairs, then random assignments of 10 relations (incl. constant, NotImplemented-returning and raising functions) to the "
+    "supplied slots (thorough: every single-slot deviation). Every supplied callable is instrumented: cmp functions record "
+    "each call with the identity of the payload objects they receive (observed per method and per operator, derived ones "
+    "included), come in a total and in a partial flavour (raise on payloads of different classes) and raise one of 7 "
+    "exception classes (Exception, KeyError, StopIteration, TypeError, AttributeError, ValueError, a BaseException "
+    "subclass) whose very object must come out; converter callbacks likewise raise one of those classes, tokens / terms / "
+    "factory results / defaults are identity-tracked (a copy is rendered differently), a repeated input is the identical "
+    "object, leaf functions are shared between leaves and the combinator is optionally rebuilt per use (no state may be "
+    "shared or remembered); filter values include an unhashable one and one whose ==, hash and bool raise. "
+    "distinct = distinct JSON case."
 )
 ASSUMPTIONS = [
     "instrumented callbacks (functions that log their rendered arguments and return a term / None / 0 / raise; factories that return a new numbered object) stand for arbitrary user converters and factories",
@@ -45,7 +53,7 @@ ASSUMPTIONS = [
     "a __init__ that stores through object.__setattr__, _setattr or the instance dict is the same for this property; the class configuration is background variation the model is independent of",
 ]
 LEVEL_TEXT = (
-    "32 Lean theorems (Properties/C19.lean) about executable models of pipe/Converter/optional/default_if_none, to_bool, "
+    "34 Lean theorems (Properties/C19.lean) about executable models of pipe/Converter/optional/default_if_none, to_bool, "
     "include/exclude and cmp_using+total_ordering. Converters: the operational model (built objects, isinstance(Converter) "
     "dispatch, one/three-argument calls with arity errors, Converter.__call__'s lambda table, _fmt_converter_call's table, "
     "setters.convert) is proved equal, for every expression tree of any depth and width, every mode and every input "
@@ -60,7 +68,9 @@ LEVEL_TEXT = (
     "C19_default_if_none_args. Filters: C19_include_iff, C19_exclude_is_negation, C19_include_union for arbitrary "
     "what-lists. cmp_using: C19_cmp_using_supplied, C19_cmp_using_notimpl (NotImplemented from all six methods, == False, "
     "!= True, orderings TypeError), C19_cmp_using_derived (all integers, every non-empty subset of ordering functions with "
-    "eq: all methods and operators compute the order), C19_cmp_using_total (any boolean functions: all six methods answer "
+    "eq: all methods and operators compute the order), C19_cmp_using_mismatch_never_calls (on a type mismatch no supplied "
+    "function is called by any method or operator, derived and reflected ones included), C19_cmp_using_called_once, "
+    "C19_cmp_using_total (any boolean functions: all six methods answer "
     "with a bool), C19_cmp_using_ctor. The models are tied to /repo by a differential correspondence (see rule; ~26 k "
     "cases quick, ~500 k thorough, zero disagreements required). Observed, not proved: CPython's tuple/frozenset "
     "membership, functools.total_ordering, operator dispatch and str.lower (modelled as small functions and diff-tested); "
